@@ -86,7 +86,9 @@ CLAIMED['C05'] = dict(category='proof',
         'source) from ANY grid state below L makes strict progress of at least one grid unit, never skips a boundary, never '
         'passes L, returns a step <= the required step; the required step is exactly: a request <= the smallest limit (floored '
         'to the micrometre) is honoured, a larger one ignored, no request gives min(limit, 1 cm); it is >= one grid unit or the '
-        'construction stops with an error; boundaries are collected from every assembly\'s power mesh.',
+        'construction stops with an error; boundaries are collected from every assembly\'s power mesh; each assembly\'s '
+        'limit is the minimum over its axial regions, each asked at the inlet and the estimated outlet temperature '
+        '(contract on the real assembly.calculate_min_dz, shared with C04).',
    note=_ASSUME + 'Real-arithmetic model of rounding (ties unspecified). Boundary counts 2-3 quick / up to 5 thorough (the '
         'loop body only tests each boundary independently). Termination and exact-on-boundaries are the induction over '
         'iterations of the proved step facts (variant: grid points in (z, L]).',
